@@ -7,7 +7,8 @@ Stage A: TLC checks the three-state reader machine (Pco.tla) over every unit lis
 Stage B: TLC prints unit lists (0..4 units) with their truncation points and all octet strings of length <= 5 over
          {0,1,2,0x80,0xFF}; the driver replays them through Marshal/UnMarshal, converts all 65 536 bitmaps in both
          directions and records seeded random lists / octet strings.
-Stage C: every observation is judged by TLC (Trace_C16) against PcoGrammar / Psi."""
+Stage C: every observation is judged by TLC (Trace_C16) against PcoGrammar / Psi.
+Added after seeded rounds 3-4: `PcoHeld` (result slice and parsed object re-read after two other lists went through); every object that parsed an input is marshalled again (`re`)."""
 import json, os, sys
 from concurrent.futures import ThreadPoolExecutor
 sys.path.insert(0, os.path.dirname(os.path.dirname(os.path.abspath(__file__))))
